@@ -247,9 +247,10 @@ contract(SOL + "root_development.py", "root_development#body",
          options=dict(function="root_development",
                       # two sites depend on the output of the trusted block (the new depth is positive and inside the profile): bounded C16 check only
                       tier_b_sites=[("argwhere_witness", "prof.dzsum >= ZiTmp"), ("div_nonzero", "ZrPot / NewCond_Zroot")],
-                      opaque_blocks=[dict(test_prefix="Zr > Crop.Zmin", havoc=["Zr", "dZr"])]),
-         note="the layer walk is a trusted block (its effect on the potential depth Zr and the increment dZr is havocked), so the envelope Zmin <= Zroot <= Zmax and "
-              "'never shrinks' are NOT claimed here (known finding C05: shrink on restrictive layers); the water-table clamp and the no-expansion clauses are proved",
+                      opaque_blocks=[dict(test_prefix="Zr > Crop.Zmin", havoc=["Zr", "ZrOld", "dZr"])]),
+         note="the layer walk (helper _depth_after_restrictive_horizons: index-array sums over the layers) is a trusted block: its effect on the potential depths Zr, ZrOld and "
+              "the increment dZr is havocked, so the envelope Zmin <= Zroot <= Zmax and 'never shrinks' are NOT claimed by E1 (bounded monitors; the shrink defect on "
+              "restrictive layers was repaired); the water-table clamp and the no-expansion clauses are proved",
          props=("C05", "C19"))
 
 # ----------------------------------------------------------------------------- initialisers that are plain scalar loops: calculate_HIGC, calculate_HI_linear
